@@ -178,8 +178,9 @@ def main(argv):
     # ---- search: the property's oracle on the implementation's answers
     fails = spec['chk'](cases, impl)
     extra_eval = 0
+    prev_c, prev_a = cases, impl
     for fu in spec.get('followups', []):
-        c2 = fu[0](cases, impl)
+        c2 = fu[0](prev_c, prev_a)
         if c2.lines:
             a2 = run_cases(st, c2.lines)
             extra_eval += len(c2.lines)
@@ -187,6 +188,8 @@ def main(argv):
             for f in f2:
                 f['line'] = c2.lines[f['idx']]; f['impl'] = a2[f['idx']]
             fails += f2
+            if len(fu) > 2 and fu[2]:
+                prev_c, prev_a = c2, a2
     if spec.get('nostd'):
         impl_n = run_cases(st, cases.lines, 'harness_nostd')
         impl_gn = run_cases(st, gen_lines, 'harness_nostd')
